@@ -13,12 +13,16 @@ Reference model (numpy only): the motion x -> Q x + t composed from Rodrigues / 
 vectors, axial vectors (det(Q) Q r), second-order tensors (Q s Q^T), fourth-order elasticity tensors (Kelvin-Mandel),
 and the closed-form Euler-Bernoulli / Timoshenko cantilever (independent oracle for "response in the member's own
 axes does not depend on its inclination").
-Oracle: u_T = Q u, r_T = det(Q) Q r, scalars / energies equal, stresses Q s Q^T, K_T = R K R^T, M_T = R M R^T.
+Oracle: u_T = Q u, r_T = det(Q) Q r, scalars / energies equal, stresses Q s Q^T, K_T = R K R^T, M_T = R M R^T; beams: the total mass
+(simu.mass) is equal and the centre of mass (simu.center, a position) is moved: c_T = Q c + t.
+Motion letter "com_to_origin" (beams): the translation that brings the centre of mass of the structure (one section, homogeneous: the
+length-weighted mean of the member mid-points) onto the origin of the axes; quick: x theory x element type x structure with the tip load,
+thorough: x every load / start orientation.
 
 Violation keys: kind, problem | theory, dim, elemType, material | structure, load, T, way, check (+ mesh / axes0 when not the
 default; beams: member_frames_symmetric = every member frame [i j k] of the original and of the moved structure is a
 symmetric matrix, the situation in which using P for P^T cannot be seen).  Per (case, way) only the FIRST failing check is
-reported (order: geometry, law tensor, K, M, displacement, stresses / internal forces, energies, closed form).
+reported (order: geometry, law tensor, K, M, displacement, stresses / internal forces, energies, closed form, mass / centre of mass).
 """
 from __future__ import annotations
 
@@ -44,6 +48,9 @@ TOL_ANALYTIC = 1e-7  # closed-form cantilever (round-off floor of the SEG5 Hermi
 # and a full turn about such an axis (the identity): both leave the body in its plane up to round-off (|z| ~ 1e-16)
 MOTIONS_2D = ["translation", "rot90", "rot180", "rot_generic", "reflection", "rotrefl", "rot180_origin", "mirror_x_origin", "flip_inplane_axis", "turn360"]
 MOTIONS_3D = ["translation", "rot90", "rot90x", "rot_generic", "axis_angle", "reflection", "rotrefl", "rot180_origin", "mirror_x_origin"]
+# "com_to_origin": the translation that brings the centre of mass of the body onto the origin of the axes (a quantity measured relative to
+# the distance to the origin loses its scale there).  Depends on the body: enumerated separately (see cases), not part of the two lists.
+MOTION_COM = "com_to_origin"
 
 
 def _unit(v):
@@ -51,8 +58,10 @@ def _unit(v):
     return v / np.linalg.norm(v)
 
 
-def motion_ops(name: str, sdim: int) -> list[dict]:
-    """The motion as a list of elementary operations (arguments of the Mesh / Geom API)."""
+def motion_ops(name: str, sdim: int, com=None) -> list[dict]:
+    """The motion as a list of elementary operations (arguments of the Mesh / Geom API).  com: centre of mass of the original body."""
+    if name == MOTION_COM:
+        return [{"op": "translate", "v": -np.asarray(com, dtype=float)}]
     r = rng("c10-motion", name, sdim)
 
     def cen():
@@ -255,6 +264,13 @@ def cases(tier, seed):
         loads = ["tip"] if tier == "quick" else ["tip", "line"]
         for theory, et, structure, load, T in itertools.product(BEAM_THEORIES, Z.TYPES_1D, starts, loads, motions):
             out.append({"kind": "beam", "dim": dim, "theory": theory, "elemType": et, "structure": structure, "load": load, "T": T})
+        # the centre of mass brought onto the origin
+        structs = ["cantilever", "frame", "cantilever_onaxis"] + ([] if tier == "quick" else starts)
+        cloads = ["tip"] if tier == "quick" else ["tip", "line", "linecouple"]
+        for theory, et, structure, load in itertools.product(BEAM_THEORIES, Z.TYPES_1D, structs, cloads):
+            if structure in starts and load not in loads:
+                continue
+            out.append({"kind": "beam", "dim": dim, "theory": theory, "elemType": et, "structure": structure, "load": load, "T": MOTION_COM})
     return out
 
 
@@ -266,10 +282,12 @@ def describe(tier, seed):
                 "non-trivial = the original solution is non-zero on unconstrained dofs; distinct = fingerprint of (factors, original solution)",
         "exhaustive": True,
         "bound": "full product of the listed alphabets (quick: template meshes, generic initial material axes; thorough: + gmsh unstructured meshes, "
-                 "+ canonical initial axes, + mixed meshes, + beams starting along y / a generic direction); meshes of 1-8 elements (beams 2 per member)",
+                 "+ canonical initial axes, + mixed meshes, + beams starting along y / a generic direction); meshes of 1-8 elements (beams 2 per member); "
+                 "beams: plus the motion com_to_origin (centre of mass of the structure brought onto the origin) x theory x element type x structure, "
+                 "tip load (thorough: x every load / start orientation)",
         "alphabet": {"continuum_problems": 4, "element_types": len(Z.TYPES_2D) + len(Z.TYPES_3D) + len(Z.TYPES_1D),
                      "elastic_materials": len(ELASTIC_MATERIALS), "hyperelastic_materials": len(HYPER_MATERIALS),
-                     "motions_2d": len(MOTIONS_2D), "motions_3d": len(MOTIONS_3D), "beam_theories": 2, "beam_elem_types": 4,
+                     "motions_2d": len(MOTIONS_2D), "motions_3d": len(MOTIONS_3D), "motions_beam_extra": 1, "beam_theories": 2, "beam_elem_types": 4,
                      "beam_structures": 3 if tier == "quick" else 4, "beam_loads": 2, "build_ways": 3},
         "assumptions": [
             "VERIF_SEED only instantiates the generic angle / axis / centre / mirror plane / SPD elasticity matrix / material axes",
@@ -279,6 +297,7 @@ def describe(tier, seed):
             "tolerance 1e-8 relative to the largest magnitude of the compared quantity; closed-form cantilever 1e-7",
             "hyperelastic: one small load step, Newton tolerances tightened to 1e-13; a non-converged Newton iteration skips the case",
             "live way only where the material has no axes (they cannot be changed on an existing law object)",
+            "beams: mass / centre of mass reported by the simulation (homogeneous density, one section for all members) are compared too",
         ],
         "explanation": "metamorphic oracle on the real implementation plus closed-form cantilever; every configuration of the alphabets is run",
     }
@@ -319,6 +338,11 @@ class _Cmp:
             where = f" got {float(g.ravel()[0])!r} want {float(w.ravel()[0])!r};"
         self.fail.setdefault(way, []).append((name, f"{name}: relative error {e:.3e} > {tol:.0e};{where} {extra}".strip()))
         return False
+
+    def failed(self, way, name, detail):
+        """A check that could not be evaluated (the implementation raised where the property promises a value)."""
+        self.n += 1
+        self.fail.setdefault(way, []).append((name, f"{name}: {detail}"))
 
     @property
     def v(self):
@@ -526,6 +550,28 @@ def _make_simu(case, mesh, mat):
         return Simulations.HyperElastic(mesh, mat, absTol=1e-13, relTol=1e-13, incTol=1e-13, maxIter=25)
     simu = Simulations.Elastic(mesh, mat)
     return simu
+
+
+def _mass_center(simu, obs):
+    """simu.mass / simu.center (where the simulation defines them) into obs; an exception is kept as text (the property promises a value)."""
+    try:
+        m, c = simu.mass, simu.center
+    except Exception as err:  # reported by _compare_center as a violation of the way being run
+        obs["mc_error"] = f"simu.mass / simu.center raised {type(err).__name__}{': ' + str(err) if str(err) else ''}"
+        return 2
+    if m is not None and c is not None:
+        obs["mass"] = float(m)
+        obs["center"] = np.asarray(c, dtype=float).copy()
+    return 2
+
+
+def _compare_center(cmp, way, o0, oT, Q, t, scale):
+    """scalar mass equal, centre of mass (a position) moved: c_T = Q c + t."""
+    if "mc_error" in oT:
+        cmp.failed(way, "center_of_mass", oT["mc_error"])
+    elif "center" in o0 and "center" in oT:
+        cmp.check(way, "mass", oT["mass"], o0["mass"])
+        cmp.check(way, "center_of_mass", oT["center"], Q @ o0["center"] + t, scale=scale, extra="(simu.center vs Q c + t of the original)")
 
 
 def _solve_continuum(simu, case, sets, coords0, Q, fresh=True):
@@ -845,7 +891,7 @@ def _beam_observe(simu, case, nmap, elem_of):
     names = ["N", "Ty", "Mz"] if dim == 2 else ["N", "Ty", "Tz", "Mx", "My", "Mz"]
     for nm in names:
         obs[nm] = np.asarray(simu.Result(nm, nodeValues=False), dtype=float)[elem_of].copy()
-    return obs, len(names)
+    return obs, len(names) + _mass_center(simu, obs)
 
 
 def _beam_K(simu, nmap, dof_n):
@@ -941,10 +987,13 @@ def _run_beam(case):
     dim = case["dim"]
     dof_n = 3 if dim == 2 else 6
     timo = case["theory"] == "TIMO"
-    ops = motion_ops(case["T"], dim)
+    members0 = _members(case["structure"], dim)
+    # centre of mass of the homogeneous structure (one section): length-weighted mean of the member mid-points
+    lengths = np.array([np.linalg.norm(p1 - p0) for (p0, p1, _) in members0])
+    com0 = (lengths[:, None] * np.array([(p0 + p1) / 2 for (p0, p1, _) in members0])).sum(axis=0) / lengths.sum()
+    ops = motion_ops(case["T"], dim, com=com0)
     Q, t = motion_matrix(ops)
     det = float(np.sign(np.linalg.det(Q)))
-    members0 = _members(case["structure"], dim)
     membersT = [(Q @ p0 + t, Q @ p1 + t, Q @ y) for (p0, p1, y) in members0]
     frames = [_frame_of(*m) for m in members0 + membersT]
     frames_symmetric = bool(all(np.abs(P - P.T).max() < 1e-9 for P in frames))
@@ -992,6 +1041,9 @@ def _run_beam(case):
                       extra="(tip dofs vs Euler-Bernoulli/Timoshenko closed form in the member's own axes)")
 
         closed_form("original", o0, np.eye(3))
+        if "mc_error" in o0:
+            cmp.failed("original", "center_of_mass", o0["mc_error"])
+        xscale = max(1.0, float(np.abs(coords0 @ Q.T + t).max()))
 
         def compare(way, oT, KMT):
             KT, MT = KMT
@@ -1000,13 +1052,14 @@ def _run_beam(case):
             cmp.check(way, "displacement", oT["U"], o0["U"] @ B.T,
                       extra="(node dofs [u, r] vs [Q u, det(Q) Q r] of the original)")
             for nm in o0:
-                if nm == "U":
+                if nm not in sign:
                     continue
                 grp = ("Mx", "My", "Mz") if nm[0] == "M" else ("N", "Ty", "Tz")
                 ref = np.abs(np.concatenate([o0[m] for m in grp if m in o0])).max()
                 cmp.check(way, "internal_forces", oT[nm], sign[nm] * o0[nm], scale=max(ref, 1e-300), extra=f"({nm} per element)")
             cmp.check(way, "energy", float(0.5 * oT["U"].ravel() @ KT @ oT["U"].ravel()), energy0)
             closed_form(way, oT, Q)
+            _compare_center(cmp, way, o0, oT, Q, t, xscale)
 
         # ---- (copy) moved copy of the mesh + Geom API on copies of the lines ----------------
         nops += apply_ops_api(mesh_copy, ops)
